@@ -24,6 +24,7 @@ U = Fraction(1, 2 ** 53)
 UV = z3.RealVal(f"1/{2 ** 53}")
 
 SIDE = []      # delta range constraints (global; harnesses snapshot/reset)
+EXACT_QUOTIENTS = [False]   # opt-in: decide divisibility of integer operands to keep exact quotients exact
 _n = [0]
 
 
@@ -97,7 +98,16 @@ class FSym(Sym):
         elif op == '/':
             t = a.t / b.t
             exact = cb in (1, -1) or _pow2(cb) or ca == 0
-            both_int = False
+            q_int = bool(both_int and cb in (1, -1))
+            if not q_int and both_int and EXACT_QUOTIENTS[0]:
+                # IEEE division is correctly rounded: an integer quotient of integers (below 2^53) is delivered
+                # exactly.  Whether the quotient is an integer on every admitted value is asked of the solver.
+                ctx = core.Ctx.cur
+                hyp = (list(ctx.pre) + list(ctx.pc)) if ctx is not None else []
+                r, _ = core.check(hyp + [b.t != 0, t != z3.ToReal(z3.ToInt(t))], timeout_ms=5000)
+                if r == 'unsat':
+                    exact = q_int = True
+            both_int = q_int
         else:
             raise core.HarnessError(op)
         if ca is not None and cb is not None:
